@@ -7,6 +7,7 @@ from .. import refmodel as R
 from .. import shapes as S
 
 PROPERTY = "C13"
+VIA_HISTORY_EVERY = 5      # every k-th shape case is also run on an object that reached its definition through edits
 EXPLORERS = ['E1']
 RULE = ("E1: surface sizes (su,sv) in {2,3,4}x{2..5}, su != sv, volume sizes = the 6 permutations of (2,3,4), every degree "
         "combination 1..D (D=2 quick, 3 thorough) the size admits, rational or not, index-coded nets (injective, non-symmetric "
